@@ -32,6 +32,13 @@ mod wire;
 #[cfg(test)]
 mod tests;
 
+/// Verification hooks exported from the (private) network module.
+#[cfg(bmwill_anemo_verif)]
+pub mod verif {
+    pub use super::connection_manager::verif::*;
+    pub use super::wire::verif as wire;
+}
+
 type OutboundRequestLayer = BoxLayer<
     BoxService<Request<Bytes>, Response<Bytes>, crate::Error>,
     Request<Bytes>,
@@ -51,9 +58,21 @@ pub struct Builder {
 
     /// Layer to apply to all outbound requests
     outbound_request_layer: Option<OutboundRequestLayer>,
+
+    /// Verification hook: datagram socket to use instead of the OS socket
+    #[cfg(bmwill_anemo_verif)]
+    verif_socket: Option<Arc<dyn quinn::AsyncUdpSocket>>,
 }
 
 impl Builder {
+    /// Verification hook: run this network over the given datagram socket (the OS socket that
+    /// `start` binds is dropped unused).
+    #[cfg(bmwill_anemo_verif)]
+    pub fn verif_socket(mut self, socket: Arc<dyn quinn::AsyncUdpSocket>) -> Self {
+        self.verif_socket = Some(socket);
+        self
+    }
+
     /// Set the [`Config`] that this network should use.
     pub fn config(mut self, config: Config) -> Self {
         self.config = Some(config);
@@ -209,6 +228,14 @@ impl Builder {
             socket.recv_buffer_size()?
         };
 
+        #[cfg(bmwill_anemo_verif)]
+        let endpoint = if let Some(verif_socket) = self.verif_socket.take() {
+            drop(socket);
+            Endpoint::verif_new_with_abstract_socket(endpoint_config, verif_socket)?
+        } else {
+            Endpoint::new(endpoint_config, socket.into())?
+        };
+        #[cfg(not(bmwill_anemo_verif))]
         let endpoint = Endpoint::new(endpoint_config, socket.into())?;
 
         let config = Arc::new(config);
@@ -285,6 +312,8 @@ impl Network {
             alternate_server_name: None,
             private_key: None,
             outbound_request_layer: None,
+            #[cfg(bmwill_anemo_verif)]
+            verif_socket: None,
         }
     }
 
